@@ -108,8 +108,8 @@ def abstract_events(evs, mode):
         if e["n"] <= 0:
             continue
         fault = e.get("fault", "none")
-        if fault in ("fmt-exit1",) or (fault == "fmt-raise" and e["what"][:1] == ["black"]):
-            fault = "fmt-error"
+        if fault in ("fmt-exit1",) or (fault in ("fmt-raise", "exception") and e["ev"] == "fmt" and e["what"][:1] == ["black"]):
+            fault = "fmt-error"        # inline-snapshot catches everything that black raises
         elif fault in ("fmt-raise", "fmt-nonutf8"):
             fault = "exception"
         ev = {"ev": e["ev"], "file": "", "fault": fault}
@@ -137,7 +137,8 @@ def run_plan(args):
         store_before = externals_state(proj)
         # the next session start prunes the unreferenced externals
         from . import session_driver as sd
-        r2 = sd.run_fork(proj, ["--inline-snapshot=disable"], timeout=90)
+        # (no test is run, so that nothing is outsourced again: the listing is the state after the pruning)
+        r2 = sd.run_fork(proj, ["--collect-only", "-q"], timeout=90)
         store_after = externals_state(proj)
         verdicts = []
         for f in FILES:
